@@ -113,6 +113,16 @@ class Builder:
                 if "n" in spec and "shape" not in spec:
                     a = dense_matrix(spec)
                     base = a
+                    lay = spec.get("layout", "c")
+                    if lay == "f":
+                        a = base = np.asfortranarray(a)
+                    elif lay == "strided":  # a non-contiguous view into a bigger caller-owned buffer
+                        big = np.zeros((2 * a.shape[0], 2 * a.shape[1]), dtype=a.dtype)
+                        big[::2, ::2] = a
+                        base, a = big, big[::2, ::2]
+                    elif lay == "tview":  # the transpose view of a C-contiguous buffer
+                        base = np.ascontiguousarray(a.T)
+                        a = base.T
                 else:
                     a, base = raw_array(spec)
                 led.register(key, a, base)
@@ -139,7 +149,7 @@ class Builder:
             return ops.Triangular(A, lower=lower)
         if k == "diag":
             d = self.array({"shape": [r["n"]], "dtype": r.get("dtype", "f8"), "seed": r.get("seed", 0),
-                            "kind": "pos" if r.get("pos", True) else "normal"})
+                            "kind": "pos" if r.get("pos", True) else "normal", **_lay(r)})
             return ops.Diagonal(d)
         if k == "identity":
             return ops.Identity((r["n"], r.get("m", r["n"])), DT[r.get("dtype", "f8")])
@@ -147,8 +157,8 @@ class Builder:
             return ops.ScalarMul(r["c"], (r["n"], r["n"]), dtype=DT[r.get("dtype", "f8")])
         if k == "tridiag":
             n, dt, s = r["n"], r.get("dtype", "f8"), r.get("seed", 0)
-            a = self.array({"shape": [max(n - 1, 0)], "dtype": dt, "seed": s})
-            b = self.array({"shape": [n], "dtype": dt, "seed": s + 1, "kind": "pos"})
+            a = self.array({"shape": [max(n - 1, 0)], "dtype": dt, "seed": s, **_lay(r)})
+            b = self.array({"shape": [n], "dtype": dt, "seed": s + 1, "kind": "pos", **_lay(r)})
             if r.get("symm", True):
                 return ops.Tridiagonal(a, b, a)
             c = self.array({"shape": [max(n - 1, 0)], "dtype": dt, "seed": s + 2})
@@ -245,6 +255,10 @@ class Builder:
         if k == "I_like":
             return ops.I_like(B(r["of"]))
         raise ValueError("unknown recipe kind %r" % k)
+
+
+def _lay(r):
+    return {"layout": r["layout"]} if r.get("layout") in ("strided", ) else {}
 
 
 def _scalar(c):
